@@ -381,17 +381,33 @@ def do_replay(mod, prop, path, as_json):
     with open(path) as f:
         rec = json.load(f)
     want = core.Violation.from_json(rec.get("violation"))
+    found_index = None
     if "run_range" in rec:
         rr = rec["run_range"]
         out = core.Outcome()
+        # the conditions of a worker: check prepared, everything allocated so far frozen
+        if hasattr(mod, "prepare"):
+            mod.prepare(rr["tier"])
+        gc.collect()
+        gc.freeze()
         for i in range(rr["start"], rr["index"] + 1):
             rng = random.Random(core.derive_seed(rr["batch_seed"], prop, i))
             for case in mod.cases(rng, rr["tier"]):
                 o = mod.execute(case)
-                if i == rr["index"] and o.violation is not None:
+                if o.violation is None:
+                    continue
+                if rr.get("any_index"):
+                    # search mode: the first violation anywhere in the range (a listed
+                    # finding is not what is being looked for)
+                    if not any(core.finding_matches(e, o.violation) for e in core.load_known_findings(prop)):
+                        out, found_index = o, i
+                        break
+                elif i == rr["index"]:
                     if out.violation is None or (want is not None and want.same_class(o.violation)
                                                  and not want.same_class(out.violation)):
                         out = o
+            if found_index is not None:
+                break
     elif want is not None and want.kind == "no_termination":
         out = budgeted_execute(mod, rec["case"])
     else:
@@ -399,6 +415,8 @@ def do_replay(mod, prop, path, as_json):
     res = {"violation": out.violation.to_json() if out.violation else None,
            "digest": out.digest,
            "same_class": bool(want and want.same_class(out.violation))}
+    if found_index is not None:
+        res["found_index"] = found_index
     if as_json:
         print("REPLAY-RESULT " + json.dumps(res), flush=True)
     if out.violation is not None:
@@ -441,6 +459,38 @@ def _range_replay(prop, tier, batch_seed, start, index, violation, repo, seed):
     return path
 
 
+def _chunk_replay(prop, tier, batch_seed, start, index, repo, seed):
+    """Last resort for state that leaks between the histories of one process and depends on
+    where things are allocated (the exact violation of the worker does not come back in
+    another process): re-execute the seeded runs of the chunk in a fresh process and take
+    the first violation met there, whatever run it is in; it is reported only if the run
+    range up to it reproduces it again in further fresh processes.  Returns (path,
+    violation) or None."""
+    path = _replay_path(prop, seed, "-range")
+
+    def write(s0, idx, violation, any_index):
+        with open(path, "w") as f:
+            json.dump({"property": prop, "seed": seed, "pythonhashseed": os.environ.get("PYTHONHASHSEED", ""),
+                       "run_range": dict({"batch_seed": batch_seed, "tier": tier, "start": s0, "index": idx},
+                                         **({"any_index": True} if any_index else {})),
+                       "violation": violation,
+                       "note": "violation needs the earlier runs of the same process: replay re-executes the seeded runs start..index in one fresh process"},
+                      f, indent=1, sort_keys=True)
+
+    write(start, index + 40, None, True)
+    res = replay_in_fresh_process(prop, path, repo)
+    if res.get("found_index") is None or not res.get("violation"):
+        os.remove(path)
+        return None
+    idx, vjson = res["found_index"], res["violation"]
+    for _ in range(2):  # must come back twice more, exactly there
+        write(start, idx, vjson, False)
+        if not replay_in_fresh_process(prop, path, repo).get("same_class"):
+            os.remove(path)
+            return None
+    return path, core.Violation.from_json(vjson)
+
+
 def handle_violation(mod, prop, index, seed, case, vjson, repo, do_min=True, tier="quick", batch_seed=0, chunk_start=-1):
     """Confirm, minimise, write the replay, confirm it in a fresh process.
     Returns (path, violation) ."""
@@ -453,6 +503,9 @@ def handle_violation(mod, prop, index, seed, case, vjson, repo, do_min=True, tie
             path = _range_replay(prop, tier, batch_seed, chunk_start, index, violation, repo, seed)
             if path is not None:
                 return path, violation
+            got = _chunk_replay(prop, tier, batch_seed, chunk_start, index, repo, seed)
+            if got is not None:
+                return got
         return None, (f"violation of run {index} (seed {seed}) reproduces neither alone nor after the earlier runs "
                       f"of its chunk in a fresh process: {violation!r} vs {res}")
     out = mod.execute(copy.deepcopy(case))
@@ -570,7 +623,9 @@ def run_batch(mod, prop, tier, batch_seed, repo, workers, runs_override=None, wa
                 printed_known.append(matched[0]["what"])
             continue
         sig = (v.kind, json.dumps(v.key, sort_keys=True))
-        if sig in seen_classes or len(seen_classes) >= 4:
+        # at most 4 confirmed classes are reported; classes that do not reproduce do not use
+        # up that allowance (up to 10 attempts in all)
+        if sig in seen_classes or len(violations_out) >= 4 or len(seen_classes) >= 10:
             seen_classes[sig] = seen_classes.get(sig, 0) + 1
             continue
         seen_classes[sig] = 1
@@ -588,9 +643,6 @@ def run_batch(mod, prop, tier, batch_seed, repo, workers, runs_override=None, wa
     # next to confirmed violations it is only logged.
     for msg in unreproducible:
         print(f"UNREPRODUCIBLE (not reported as a violation): {msg}"[:600], flush=True)
-    if unreproducible and not violations_out:
-        _harness_error("a violation was observed in a worker but no replay file reproduces it (state outside the "
-                       "simulator's control, e.g. absolute addresses)")
 
     # the same property under other PYTHONHASHSEED values (a recorded
     # configuration: string hashing changes set/dict iteration orders)
@@ -621,9 +673,15 @@ def run_batch(mod, prop, tier, batch_seed, repo, workers, runs_override=None, wa
                         print(f"[PYTHONHASHSEED={hs}] {line}" if not line.startswith("VIOLATION") else line, flush=True)
                     if line.startswith("VIOLATION"):
                         violations_out.append(line.split("replay=", 1)[-1])
-                if proc.returncode == 2:
+                if proc.returncode == 2 and (violations_out or unreproducible):
+                    print(f"[PYTHONHASHSEED={hs}] sub-batch ended in a harness error; confirmed violations are reported above", flush=True)
+                elif proc.returncode == 2:
                     _harness_error(f"sub-batch under PYTHONHASHSEED={hs} failed:\n{proc.stdout[-1500:]}{proc.stderr[-1500:]}")
         extra_cov["other_pythonhashseeds"] = others
+
+    if unreproducible and not violations_out:
+        _harness_error("a violation was observed in a worker but no replay file reproduces it (state outside the "
+                       "simulator's control, e.g. absolute addresses)")
 
     wall = time.monotonic() - t0
     write_evidence(mod, prop, tier, batch_seed, total, extra_cov, wall, len(violations_out),
